@@ -16,7 +16,7 @@ MCNext ==
         \/ \E ops \in OpsOver : TxWrite(ops)
   \/ /\ UNCHANGED nv
      /\ \/ \E k \in Keys : Get(k) \/ Has(k) \/ TxGet(k) \/ TxHas(k)
-        \/ Compact \/ Misc \/ SecondOpen \/ OpenTx \/ TxDiscard \/ Close \/ SetReadOnly
+        \/ Compact \/ FailedCall \/ CloseFailed \/ Misc \/ SecondOpen \/ OpenTx \/ TxDiscard \/ Close \/ SetReadOnly
         \/ \E oc \in {"ok", "fail"} : TxCommit(oc)
         \/ \E r \in BOOLEAN : Reopen(r)
         \/ \E h \in Hs : GetSnapshot(h) \/ SnapRelease(h) \/ IterRelease(h)
